@@ -52,7 +52,7 @@ def _mk(op, vals, n, tags, **kw):
 
 
 def generate(rng, tier):
-    N = 1500 if tier == 'quick' else 40000
+    N = 1500 if tier == 'quick' else 200000
     for k in range(N):
         m = rng.randint(1, 8)
         kind = rng.choice(['small', 'small', 'small', 'frac', 'dec', 'big', 'mid'])
@@ -103,6 +103,10 @@ def generate(rng, tier):
             for vals in itertools.product([0, 1, 2], repeat=m):
                 for n in range(1, m + 2):
                     yield _mk('get_n_best', list(vals), n, ['exhaustive'])
+        for m in range(1, 7):                      # negative values, six candidates
+            for vals in itertools.product([-1, 0, 1], repeat=m):
+                for n in range(1, m + 2):
+                    yield _mk('plurality' if (m + n) % 2 else 'get_n_best', list(vals), n, ['exhaustive'])
 
 
 def _votes(case):
